@@ -84,7 +84,53 @@ def m_coroutine_poll(ex, args, callee):
         return poll_ready(ex, co.payload)
     if isinstance(co, Opaque) and co.tag == 'tryfold':
         return tryfold_poll(ex, co)
+    if isinstance(co, Opaque) and co.tag == 'pollfn':
+        return ex.call_closure(co.payload, [args[1]])
     raise Unsupported(f'poll of {co!r}')
+
+
+class MaybeDoneV:
+    """futures::future::MaybeDone: Future(f) -> Done(output) -> Gone"""
+    def __init__(self, fut): self.state, self.fut, self.out = 'future', Cell(fut), Cell(None)
+    def __repr__(self): return f'MaybeDone({self.state})'
+
+
+def _md(arg):
+    v = arg
+    for _ in range(6):
+        if isinstance(v, Ref): v = v.cell.v
+        elif isinstance(v, Adt) and v.ty == 'Pin': v = v.fields[None][0].v
+        else: break
+    if not isinstance(v, MaybeDoneV): raise Unsupported(f'not a MaybeDone: {v!r}')
+    return v
+
+
+def m_md_poll(ex, args, callee):
+    md = _md(args[0])
+    if md.state == 'gone': raise Panic('MaybeDone polled after value taken')
+    if md.state == 'future':
+        r = m_coroutine_poll(ex, [Adt('Pin', 0, {None: [Cell(Ref(md.fut))]}), args[1]], '')
+        if r.discr != 0: return poll_pending(ex)
+        md.out.v = ex.payload(r); md.state = 'done'
+    return poll_ready(ex, Tup([]))
+
+
+def m_md_output_mut(ex, args, callee):
+    md = _md(args[0])
+    return ex.some(Ref(md.out)) if md.state == 'done' else ex.none()
+
+
+def m_md_take_output(ex, args, callee):
+    md = _md(args[0])
+    if md.state != 'done': return ex.none()
+    md.state = 'gone'
+    return ex.some(md.out.v)
+
+
+def m_pollfn_poll(ex, args, callee):
+    v = pinned(args[0]).v
+    while isinstance(v, Ref): v = v.cell.v
+    return ex.call_closure(v.payload, [args[1]])
 
 
 class AsyncStream:
@@ -152,6 +198,12 @@ def m_hint_upper(ex, args, callee):
 
 
 MODELS = [
+    (r'^Poll::<.*>::is_pending$', lambda ex, a, c: dv(a[0]).discr == 1), (r'^Poll::<.*>::is_ready$', lambda ex, a, c: dv(a[0]).discr == 0),
+    (r'^(futures::future::)?maybe_done::<', lambda ex, a, c: MaybeDoneV(a[0])),
+    (r'^<(futures::future::)?MaybeDone<.*> as (futures::)?Future>::poll$', m_md_poll),
+    (r'MaybeDone::<.*>::output_mut$', m_md_output_mut), (r'MaybeDone::<.*>::take_output$', m_md_take_output),
+    (r'^(futures::future::)?poll_fn::<', lambda ex, a, c: Opaque('pollfn', a[0])),
+    (r'^<(futures::future::)?PollFn<.*> as (futures::)?Future>::poll$', m_pollfn_poll),
     (r' as (hyper::body::|http_body::)?Body>::size_hint$', m_size_hint),
     (r'SizeHint::upper$', m_hint_upper), (r'SizeHint::lower$', lambda ex, a, c: dv(a[0]).payload[0]), (r'SizeHint::exact$', lambda ex, a, c: m_hint_upper(ex, a, c)),
     (r'^BytesMut::with_capacity$', lambda ex, a, c: BytesMut()),
